@@ -83,6 +83,8 @@ def validate_chan(rep, path, label, jobs=8):
     for k in r["known"]:
         for d in k["devs"]:
             rep.known.append({"finding": d, "flavour": json.loads(hs[k["history"]][0]).get("fl"), "driver": label})
+    for u in r.get("undecided", []):
+        rep.inconclusive.append("%s: history %d not decided (%s)" % (label, u["history"], u.get("why", "second phase timed out")))
     for v in r["violations"]:
         h = hs[v["history"]]
         rep.violations.append({"what": "history rejected by Layer A (ChanTrace) at record %d: %s" % (v["record_index"], v["record"]),
